@@ -89,9 +89,11 @@ def _parseNormalHeader(fn: str) -> Tuple[str, str, float, float]:
     objectType = chunkedData[1].split("=")[-1]
     objectType = objectType.replace('"', "").strip()
 
-    data = chunkedData[-1]
-    maxT = float(chunkedData[-4].split("=")[-1].strip())
-    minT = float(chunkedData[-5].split("=")[-1].strip())
+    # The header rows are counted from the top: an object without points has no
+    # eighth chunk, so counting from the end would pick the wrong rows
+    data = chunkedData[7] if len(chunkedData) > 7 else ""
+    maxT = float(chunkedData[4].split("=")[-1].strip())
+    minT = float(chunkedData[3].split("=")[-1].strip())
 
     return data, objectType, minT, maxT
 
